@@ -2782,11 +2782,14 @@ class LinearOperator(object):
         from linear_operator.operators.zero_linear_operator import ZeroLinearOperator
 
         if isinstance(other, ZeroLinearOperator):
-            return self
+            # self + 0 is self, broadcast to the common shape (incompatible shapes raise)
+            shape = torch.broadcast_shapes(self.shape, other.shape)
+            return self if shape == self.shape else self.expand(*shape)
         elif isinstance(other, DiagLinearOperator):
             return AddedDiagLinearOperator(self, other)
         elif isinstance(other, RootLinearOperator):
-            return self.add_low_rank(other.root)
+            # (_root_decomposition accounts for the orientation of an upper Cholesky operator)
+            return self.add_low_rank(other._root_decomposition())
         elif isinstance(other, Tensor):
             other = to_linear_operator(other)
             shape = torch.broadcast_shapes(self.shape, other.shape)
